@@ -10,7 +10,7 @@ from ..astutil import attr_chain, call_attr, calls_in, guard_facts, unparse, wal
 from ..cfg import CFG
 from ..dataflow import Deriv, reaching_defs, resolved_text
 from ..report import Finding, Report
-from ..srcindex import AnalysisError, Index
+from ..srcindex import AnalysisError, Index, raw_funcs
 
 CORE = "xdsl/ir/core.py"
 REWRITER = "xdsl/rewriter.py"
@@ -92,7 +92,7 @@ def check_pairing(idx: Index, rep: Report) -> None:
     r = rep.rule("C01.R1", "every link store a.next = b is matched on the same paths by b.prev = a (and vice versa), for op, block and use lists", floor=30)
     mi = idx.module(CORE)
     n_fn = 0
-    for f in mi.functions.values():
+    for f in raw_funcs(mi):
         stores = link_stores(f.node)
         if not stores:
             continue
@@ -180,7 +180,7 @@ def check_writers(idx: Index, rep: Report) -> None:
     fields = LINK_FIELDS | END_FIELDS | USE_FIELDS | {"parent"}
     count_core = 0
     for mi in idx.modules.values():
-        for f in mi.functions.values():
+        for f in raw_funcs(mi):
             for n in walk_local(f.node):
                 tgts = []
                 if isinstance(n, ast.Assign):
@@ -387,7 +387,7 @@ def check_attach(idx: Index, rep: Report) -> None:
         (r.ok(f.fq, f"{f.loc} rejects attached child and ancestor cycles") if ok else r.fail(f.fq, Finding("C01.R6", f.fq, "attach-guards", f"{q} must raise when the child has a parent or is an ancestor of the container, then set child.parent = self", f.loc)))
     # every function that links a *parameter-derived* node into a list attaches it first
     mi = idx.module(CORE)
-    for f in mi.functions.values():
+    for f in raw_funcs(mi):
         if f.cls is None or f.cls.name not in ("Block", "Region"):
             continue
         if f.name in ("_attach_op", "_attach_block"):
